@@ -15,7 +15,9 @@ compared exhaustively on small patterns and small directory trees, on the real c
   R  reference matcher     on files, the recorded set is what a small backtracking matcher written from the property
                            accepts (`*` and names: no separator; `**` as a component: anything; repeated name: equal);
   E  incremental = rescan  extending / reducing a recorded set by added / deleted paths (will_change) gives the set a
-                           fresh scan of the changed tree records.
+                           fresh scan of the changed tree records, for every ordered pair of trees (which includes a
+                           file replaced by a directory of the same name and back); will_change returns None iff the
+                           set is unchanged and never touches the original.
 """
 
 from __future__ import annotations
@@ -228,26 +230,35 @@ def run_case(ng_mod, root, pattern, tree, subs=None):
     return fails
 
 
-def run_incremental(ng_mod, pattern, old_tree, new_tree, root_old, root_new):
-    NamedGlob = ng_mod.NamedGlob
+def scan(ng_mod, pattern, root):
+    """NamedGlob(pattern) after a fresh scan of the tree at `root`, or None when the pattern is refused."""
     try:
-        os.chdir(root_old)
-        ng = NamedGlob(pattern)
+        os.chdir(root)
+        ng = ng_mod.NamedGlob(pattern)
         ng.glob()
-        os.chdir(root_new)
-        fresh = NamedGlob(pattern)
-        fresh.glob()
     except ValueError:
-        return []
+        return None
+    return ng
+
+
+def run_incremental(ng, fresh, old_tree, new_tree):
+    """`ng`: the scan of the old tree, `fresh`: the scan of the new tree (both left untouched)."""
     ex_old, ex_new = existing(old_tree), existing(new_tree)
     deleted, added = ex_old - ex_new, ex_new - ex_old
+    before = {k: set(v) for k, v in ng.results.items()}
     evolved = ng.will_change(deleted, added)
+    fails = []
+    if {k: set(v) for k, v in ng.results.items()} != before:
+        fails.append(dict(check="E will_change leaves the original untouched", deleted=sorted(deleted), added=sorted(added)))
     got = set(str(p) for p in (evolved if evolved is not None else ng).files())
     want = set(str(p) for p in fresh.files())
     if got != want:
-        return [dict(check="E incremental = rescan", deleted=sorted(deleted), added=sorted(added),
-                     incremental_only=sorted(got - want), rescan_only=sorted(want - got))]
-    return []
+        fails.append(dict(check="E incremental = rescan", deleted=sorted(deleted), added=sorted(added),
+                          incremental_only=sorted(got - want), rescan_only=sorted(want - got)))
+    if (evolved is None) != (set(str(p) for p in ng.files()) == got):
+        fails.append(dict(check="E will_change returns None iff nothing changes", deleted=sorted(deleted), added=sorted(added),
+                          returned_none=evolved is None))
+    return fails
 
 
 def kind_of(f, pattern=""):
@@ -297,11 +308,16 @@ def _work(args):
                     fails.append(dict(kind=kind_of(f, p), pattern=p, tree=sorted(t), **f))
                 n += 1
             if do_incremental:
-                for _ in range(3):
-                    i, j = rnd.randrange(len(tree_list)), rnd.randrange(len(tree_list))
-                    for f in run_incremental(ng_mod, p, tree_list[i], tree_list[j], roots[i], roots[j]):
-                        fails.append(dict(kind=kind_of(f, p), pattern=p, old_tree=sorted(tree_list[i]), new_tree=sorted(tree_list[j]), **f))
-                    n += 1
+                scans = [scan(ng_mod, p, r) for r in roots]
+                if scans[0] is not None:
+                    for i in range(len(tree_list)):
+                        for j in range(len(tree_list)):
+                            if i == j:
+                                continue
+                            for f in run_incremental(scans[i], scans[j], tree_list[i], tree_list[j]):
+                                fails.append(dict(kind=kind_of(f, p), pattern=p, old_tree=sorted(tree_list[i]),
+                                                  new_tree=sorted(tree_list[j]), **f))
+                            n += 1
             if len(fails) > 200:
                 break
     finally:
@@ -313,7 +329,7 @@ def _work(args):
 @bounded("compilers_and_filesystem", props=["C17"],
          bound="patterns of up to 3 (quick) / 4 (thorough) tokens over {a . / * ? [ab] ** ${*n} ${*m}} (well-formed ones), "
                "on every tree of a family of small directory trees of depth up to 2 (quick) / 3 (thorough) over the names "
-               "{a, b, .h, ab}; checks A-D on every (pattern, tree), check E on three seeded pairs of trees per pattern")
+               "{a, b, .h, ab}; checks A-D and R on every (pattern, tree), check E on every ordered pair of trees (quick: 24 trees in which every name occurs as a file, as an empty directory and as a directory with entries; thorough: these and a seeded sample of 16 more) per pattern")
 def compilers_and_filesystem(tier, seed):
     import concurrent.futures
     import multiprocessing
@@ -323,8 +339,15 @@ def compilers_and_filesystem(tier, seed):
     extra = ["${*m}${*n}/${*m}", "a/${*n}${*m}", "b/**/a", "**/${*n}${*n}"]
     pats = list(patterns(ntok)) + [p for p in extra if p not in set(patterns(ntok))]
     tree_list = trees(2 if tier == "quick" else 3)
+    # a spread of 24 trees in which every name occurs as a file, as an empty directory and as a directory with entries
+    spread = [0, 1, 2, 3, 4, 6, 8, 9, 11, 15, 16, 17, 19, 32, 33, 35, 38, 43, 44, 47, 54, 55, 60, 65]
     if tier == "quick":
-        tree_list = tree_list[:24]
+        tree_list = [tree_list[i] for i in spread]
+    else:
+        # check E runs over all ordered pairs: keep the spread and a seeded sample of the rest
+        rest = [t for i, t in enumerate(tree_list) if i not in spread]
+        random.Random(seed).shuffle(rest)
+        tree_list = [tree_list[i] for i in spread] + rest[:16]
     size = max(1, len(pats) // 64)
     chunks = [(pats[i:i + size], tree_list, seed + i, True) for i in range(0, len(pats), size)]
     failures, n = [], 0
